@@ -101,6 +101,7 @@ func init() {
 		Property: "C11",
 		Parts: []simkit.Part{
 			{Name: "execsim-c11", Fn: execsim.C11, Runs: map[string]int{"quick": 40000, "thorough": 3000000}},
+			{Name: "clisim-c11", Fn: clisim.C11CLI, ProcessLevel: true, NeedsCLI: true, Runs: map[string]int{"quick": 500, "thorough": 15000}},
 		},
 		Rule:           "one run = 2-8 operator actions (add newer file, add file with an older version, add checkpoint, make the database dirty/clean, fix, apply n with drawn exec-order / baseline / allow-dirty and optionally an injected failing statement that leaves a partial revision); after every apply the executed statements and the error class are compared with the documented decision of the reference model (model.Pending); distinct = distinct trace hash among runs that executed a statement",
 		RequiredProbes: []string{"out-of-order-file-added", "checkpoint-added", "last-partial-history", "first-run-with-checkpoint", "decision:run", "decision:no-pending", "decision:not-clean", "decision:baseline-not-found", "decision:non-linear"},
